@@ -32,6 +32,7 @@ import numpy as np
 from verif import core
 from verif import dist_k as K
 from verif.props import c11 as H11
+from verif.props import c10_suggest_gen as SG
 
 import optuna
 from optuna import distributions as OD
@@ -144,6 +145,12 @@ def eval_script(cx: H11.Ctx, case: dict[str, Any], tmp: str) -> None:
             got, err = None, H11.exc_name(e)
         m = cx.ask({"op": "suggest", "name": name, "d": K.mdist(d, "bin"), "ddec": K.mdist(d, "dec"), "indep": tokv(indep)})
         cx.count("script:call")
+        if m.get("gen") is not None:  # interpreter of the IR generated from optuna/trial/_trial.py vs the hand model (driver `suggestgen`)
+            cx.count("gen:differs")
+            cx.broke("generated-vs-hand", "suggest(%r, %r): the interpreter of the generated Trial._suggest differs from the hand model: %s" % (
+                name, d, json.dumps(m["gen"])[:500]))
+        elif "gen" in m:
+            cx.count("gen:side-by-side")
         if err is not None:
             branches.add("err")
             cx.count("script:err:" + err)
@@ -962,7 +969,7 @@ def run_case(drv: core.Driver, case: dict[str, Any], seed: int, tmp: str) -> H11
 def _pool_worker(args: tuple[list[dict[str, Any]], int, str]) -> list[dict[str, Any]]:
     cases, seed, tmp = args
     warnings.simplefilter("ignore")
-    drv = core.Driver("suggest")
+    drv = core.Driver(SG.DRIVER)
     out = []
     r = random.Random(seed)
     try:
@@ -977,7 +984,7 @@ def _pool_worker(args: tuple[list[dict[str, Any]], int, str]) -> list[dict[str, 
                             "findings": [{"sev": f.sev, "kind": f.kind, "msg": f.msg} for f in cx.findings]})
             except core.DriverBroken as e:
                 out.append({"case": case, "counts": {}, "nontrivial": False, "driver_broken": str(e)[:500], "findings": []})
-                drv = core.Driver("suggest")
+                drv = core.Driver(SG.DRIVER)
     finally:
         drv.close()
     return out
@@ -1047,8 +1054,11 @@ def search(chk: core.Check) -> None:
     c15_nsga.search(chk)
     if chk.violations:
         return
+    SG.search(chk)  # the public suggest_* API / FixedTrial / FrozenTrial against the model-free oracles
+    if chk.violations:
+        return
     r = random.Random(chk.seed * 17 + 3)
-    drv = core.Driver("suggest")
+    drv = core.Driver(SG.DRIVER)
     n = 0
     try:
         cases = [H11._safe(gen_script, r) for _ in range(600)] + [H11._safe(gen_probe, r) for _ in range(600)]
@@ -1081,11 +1091,19 @@ def main(chk: core.Check) -> int:
     c11_gen.regenerate(chk)  # T-transform: the projection _untransform_numerical_param as written today (Props/C11Gen, C10Gen)
     from verif.props import c15_nsga
     c15_nsga.translate(chk)  # T-nsga2: content keys of the NSGA-II functions mirrored by Model/Nsga2.lean
+    SG.regenerate(chk)  # T-suggest: Trial._suggest & co. as written today (Props/C10SuggestGen)
+    from verif.props import c10_proj_gen
+    c10_proj_gen.regenerate(chk)  # T-proj: the TPE / GP / QMC / Random projections as written today (Props/C10ProjGen)
     if not getattr(chk, "no_prove", False):
-        chk.prove(c11_gen.prove_modules("C10"))
+        chk.prove(c11_gen.prove_modules("C10") + [SG.MODULE, c10_proj_gen.MODULE])
         c11_gen.explain_proof_failure(chk)
+        SG.explain_proof_failure(chk)
+        c10_proj_gen.explain_proof_failure(chk)
     try:
         core.ensure_driver()
+        c10_proj_gen.side_by_side(chk)  # hand models vs the evaluator of the generated formulas; real GP normalisation functions
+        SG.differential(chk, 300 if chk.tier == "quick" else 3000)  # generated interpreter vs hand model, synthetic inputs
+        SG.correspond(chk, chk.tier == "quick")  # the real suggest_* API / FixedTrial / FrozenTrial vs hand model vs interpreter
         c15_nsga.correspond(chk, chk.tier)  # NSGA-II crossover / mutation pipeline (+ whole-sampler replay)
         quick = chk.tier == "quick"
         cases = gen_cases(chk.rng, quick)
@@ -1100,7 +1118,7 @@ def main(chk: core.Check) -> int:
         for part in results:
             for res in part:
                 absorb(chk, res)
-        chk.traces_validated = chk.hist.get("script:call", 0) + chk.hist.get("run:suggest", 0)
+        chk.traces_validated += chk.hist.get("script:call", 0) + chk.hist.get("run:suggest", 0)
     except core.DriverBroken as e:
         chk.broke("correspondence", {"driver": str(e)[:800]})
     chk.extra["samplers_run"] = sorted({k.split(":")[1] for k in chk.hist if k.startswith("run:") and k.count(":") == 2})
@@ -1122,9 +1140,12 @@ def replay(chk: core.Check, path: str) -> int:
     rc = c15_nsga.replay(chk, w)
     if rc is not None:
         return rc
+    rc = SG.replay(chk, w)
+    if rc is not None:
+        return rc
     case = w["witness"]["case"] if "witness" in w else w["no_longer_checks"][0]["detail"]["case"]
     core.ensure_driver()
-    drv = core.Driver("suggest")
+    drv = core.Driver(SG.DRIVER)
     try:
         cx = run_case(drv, case, 0, chk.tmp)
     finally:
